@@ -43,6 +43,17 @@ pub struct ServiceRig {
     pub events: mpsc::Receiver<Event>,
 }
 
+thread_local! {
+    static FROM_SOCKETS: std::cell::Cell<bool> = const { std::cell::Cell::new(false) };
+}
+
+/// The next rig started on this thread hands the node pre-bound UDP sockets on the loopback
+/// interface (`ListenConfig::FromSockets`: an IPv4 one, an IPv6 one or both, as its mode says)
+/// instead of addresses to bind. Nothing is ever sent over them: the handler is scripted.
+pub fn next_rig_listens_on_given_sockets(on: bool) {
+    FROM_SOCKETS.with(|f| f.set(on));
+}
+
 impl ServiceRig {
     /// Must be called inside a runtime.
     pub async fn start(rng: &mut Rng, cfg: ServiceCfg) -> ServiceRig {
@@ -61,6 +72,18 @@ impl ServiceRig {
             Mode::Ip4 => ListenConfig::Ipv4 { ip: Ipv4Addr::new(10, 0, 0, 1), port: 9000 },
             Mode::Ip6 => ListenConfig::Ipv6 { ip: Ipv6Addr::new(0xfd00, 0, 0, 0, 0, 0, 0, 1), port: 9000 },
             Mode::Dual => ListenConfig::DualStack { ipv4: Ipv4Addr::new(10, 0, 0, 1), ipv4_port: 9000, ipv6: Ipv6Addr::new(0xfd00, 0, 0, 0, 0, 0, 0, 1), ipv6_port: 9000 },
+        };
+        let listen = if FROM_SOCKETS.with(|f| f.replace(false)) {
+            let v4 = tokio::net::UdpSocket::bind("127.0.0.1:0").await.ok().map(std::sync::Arc::new);
+            let v6 = tokio::net::UdpSocket::bind("[::1]:0").await.ok().map(std::sync::Arc::new);
+            match (cfg.mode, v4, v6) {
+                (Mode::Ip4, Some(v4), _) => ListenConfig::FromSockets { ipv4: Some(v4), ipv6: None },
+                (Mode::Ip6, _, Some(v6)) => ListenConfig::FromSockets { ipv4: None, ipv6: Some(v6) },
+                (Mode::Dual, Some(v4), Some(v6)) => ListenConfig::FromSockets { ipv4: Some(v4), ipv6: Some(v6) },
+                _ => listen,
+            }
+        } else {
+            listen
         };
         let mut builder = ConfigBuilder::new(listen);
         builder.executor(Box::new(TokioExecutor));
